@@ -159,8 +159,25 @@ def rule_qm(ctx):
     C11.invariant_obligations(ScopedCtx(ctx, parser_scope(ctx.facts())), ctx.facts(), rule="QM-INV")
 
 
+def rule_dup_case(ctx):
+    """'algorithm repeated in any case' is refused: the text parser detects the repetition by inserting the lower-cased
+    algorithm into a map, so it sees every case variant only if that lower-caser is char-wise to_lowercase on every char
+    (C12's GUARDXFORM obligations on the same helper); 'two values for one key in any letter case' rests on the key
+    comparator the same way (QM-INV above)."""
+    from . import C12, lowercase
+    facts = ctx.facts()
+    rl = C12.roles(facts)
+    if "lower" not in rl or "parse" not in rl:
+        raise AnchorError("checksum parser / lower-caser not found by role")
+    pb = facts.body(rl["parse"])
+    uses = [bb for bb, t in pb.calls() if callee_name(t["callee"]) == rl["lower"]]
+    ctx.ob("DUP-CASE", "the checksum text parser keys its duplicate test by the lower-cased algorithm", len(uses) >= 1, fn=rl["parse"], site=pb.site(uses[0]) if uses else fn_site(facts, rl["parse"]), detail="%d call(s) of %s" % (len(uses), rl["lower"]))
+    lowercase.guardxform_obligations(ctx, facts, rl["lower"], rule="DUP-CASE")
+
+
 RULES = [
     ("QM-INV", rule_qm, 25),
+    ("DUP-CASE", rule_dup_case, 4),
     ("CONTROL", rule_controls, 0),
     ("REJECT-SOUND", rule_reject_sound, 30),
     ("TYPED", rule_typed, 2),
